@@ -114,6 +114,26 @@ Extensions for submatrix (utils.py, C20)
                (and `E`; before opaque helpers).  The generated definition therefore describes the source on inputs where every float that
                is compared with the constant is a real number below `pinf`, for any sufficiently large real `pinf`
                (the link theorems say how large); the behaviour on tables containing +inf is NOT covered by it.
+Extensions for the SGD epoch kernel of layouts.py (C07; semantics: header of lib/PyPrim.v, exemplar coq/link/L_sgd.v)
+  row views  : `v = A[i]` with A a 2-d (M / MZ) ARGUMENT the function stores into (directly, through a view, or through a
+               mutating callee): v is a view of row i.  Generated: `let v := <i> in` (the row index, type RowView(A) ~ Z; it is
+               part of a loop's state when rebound inside the loop); `v[d]` -> `mnth N A v d` (`imnth` for MZ), `v[d] op= e`
+               -> `let A := mset N A v d .. in` (the ARRAY is the assigned variable: loop states / if joins carry A), `v` as a
+               value -> `mrow N A v` (current contents).  A view name may only be bound by `v = A[..]` of the same A; stores
+               through views of int matrices are rejected.  Rows of arrays that are never stored into stay values (`mrow`).
+  mutating   : a call of a translated function that stores into its argument and returns a value, with the argument `A[i]`,
+  callees      a row view or an argument array name: hoisted in front of the statement as
+               `let '(r_, m_) := src_f N (imrow A i) in let A := (zset A i m_) in`; only in `name = <expr>` (one call, no
+               conditional expression, A not mentioned elsewhere in the statement).
+  alias      : `sigs[fn]['alias'] = {'tail_embedding': 'head_embedding'}`: translate FOR CALLS IN WHICH THESE TWO ARGUMENTS ARE
+               THE SAME ARRAY: the first name is replaced by the second everywhere and its parameter disappears.  Without the
+               option the generated definition describes calls whose mutated array arguments do not overlap.
+  variants   : `sigs[name]['source'] = f`: `name` (an entry of the module's function list) is another translation of the
+               source function f (other `alias` / `fixed` options); the generated definition is `src_<name>`.
+  imports    : translate_module(.., imports={name: (python module, file)}): a function the module binds by
+               `from <python module> import <name>` (checked on the current source) is translated from that file.
+  other      : `numba.prange` = `range` (sequential semantics only); a variable that is an int on one path of an `if` and a
+               float on the other is coerced to float (`of_Z`) at the join.
 """
 import ast, decimal, hashlib
 
@@ -129,7 +149,28 @@ ARRAYS = (V, M, VZ, MZ)
 PINF = ("pinf", F)      # consts value of a module constant bound to +infinity: becomes the extra argument `pinf`
 
 
+class RowView:
+    """type of a NAME bound to `A[i]` where A is a 2-d argument array the function mutates: the name denotes row i of A
+    (numpy basic indexing: a view), represented in Gallina by the row index (a Z variable of the same name)"""
+    def __init__(self, arr, rowt):
+        self.arr, self.rowt = arr, rowt
+
+    def __eq__(self, o):
+        return isinstance(o, RowView) and (self.arr, self.rowt) == (o.arr, o.rowt)
+
+    def __ne__(self, o):
+        return not self.__eq__(o)
+
+    def __hash__(self):
+        return hash(("RowView", self.arr, self.rowt))
+
+    def __repr__(self):
+        return "RowView(%s)" % self.arr
+
+
 def coq_type(t):
+    if isinstance(t, RowView):
+        return "Z"
     if isinstance(t, tuple):
         if t and t[0] == "opt":
             return "option (%s)" % coq_type(t[1])
@@ -194,9 +235,12 @@ def dotted(node):
     return None
 
 
-def assigned_names(stmts):
-    """names (re)bound anywhere in the statement list (including subscript stores: the array is rebound)"""
+def assigned_names(stmts, viewmap=None, mutcalls=None):
+    """names (re)bound anywhere in the statement list (including subscript stores: the array is rebound).
+    `viewmap` (row-view name -> array): a store through a view rebinds the ARRAY; `mutcalls`: function mapping an expression
+    to the arrays that calls of mutating functions inside it write back to"""
     out = []
+    viewmap = viewmap or {}
 
     def tgt(t):
         if isinstance(t, ast.Name):
@@ -207,7 +251,7 @@ def assigned_names(stmts):
         elif isinstance(t, ast.Subscript):
             n = t.value
             if isinstance(n, ast.Name):
-                out.append(n.id)
+                out.append(viewmap.get(n.id, n.id))
             else:
                 raise Unsupported("store into non-name subscript")
         else:
@@ -217,17 +261,21 @@ def assigned_names(stmts):
         if isinstance(s, ast.Assign):
             for t in s.targets:
                 tgt(t)
+            if mutcalls:
+                out += mutcalls(s.value)
         elif isinstance(s, ast.AugAssign):
             tgt(s.target)
+            if mutcalls:
+                out += mutcalls(s.value)
         elif isinstance(s, ast.For):
             tgt(s.target)
-            out += assigned_names(s.body)
+            out += assigned_names(s.body, viewmap, mutcalls)
             if s.orelse:
                 raise Unsupported("for-else")
         elif isinstance(s, ast.While):
-            out += assigned_names(s.body)
+            out += assigned_names(s.body, viewmap, mutcalls)
         elif isinstance(s, ast.If):
-            out += assigned_names(s.body) + assigned_names(s.orelse)
+            out += assigned_names(s.body, viewmap, mutcalls) + assigned_names(s.orelse, viewmap, mutcalls)
     seen, res = set(), []
     for n in out:
         if n not in seen:
@@ -263,7 +311,9 @@ class FnTranslator:
         self.uses_pinf = False
         self.opaque = dict(sig.get("opaque") or {})     # helper name -> ([arg types], result type)
         self.opaque_used = set()
-        self.pre = []          # hoisted fuel-bounded calls of the statement being translated: [(let-text, ok flag)]
+        self.pre = []          # hoisted fuel-bounded / mutating calls of the statement being translated: [(let-text, ok flag or None)]
+        self.viewmap = {}      # row-view name -> the mutated 2-d argument array it is a row of (filled by translate)
+        self.mut_ok = False    # True while translating the value of `name = <expr>` (the only place a mutating call may occur)
         self.nest = 0          # > 0 inside a loop body / a branch of a joining if
         self.cond_depth = 0    # > 0 inside a conditional expression / and-or operand
         self.has_fuel = any(isinstance(x, ast.While) for x in ast.walk(fn)) or any(
@@ -294,8 +344,44 @@ class FnTranslator:
         if not pre:
             return "", env
         env2 = dict(env)
-        env2["%ok"] = env.get("%ok", ()) + tuple(o for _, o in pre)
+        env2["%ok"] = env.get("%ok", ()) + tuple(o for _, o in pre if o is not None)
         return "".join(t for t, _ in pre), env2
+
+    # ---------------------------------------------------------------- row views / mutating callees
+    def an(self, stmts):
+        return assigned_names(stmts, self.viewmap, self.mutcall_arrays)
+
+    def mutating_calls(self, node):
+        """[(call node, [(argument node, callee parameter)])] for the calls of translated functions that mutate an argument"""
+        out = []
+        for x in ast.walk(node):
+            if isinstance(x, ast.Call):
+                nm = dotted(x.func)
+                info = self.module_fns.get(nm) if nm and nm not in self.opaque else None
+                if info and info.get("mutates"):
+                    pos = [i for i, (an_, _) in enumerate(info["args"]) if an_ in info["mutates"]]
+                    out.append((x, [(x.args[i], info["args"][i][0]) for i in pos if i < len(x.args)]))
+        return out
+
+    def mutarg_array(self, a, cand=None):
+        """the argument array written back to when `a` is passed to a mutating callee: `A[i]` -> A, a row-view name -> its
+        array, an array name -> itself"""
+        vm = self.viewmap if cand is None else cand
+        if isinstance(a, ast.Subscript) and isinstance(a.value, ast.Name) and not isinstance(a.slice, (ast.Slice, ast.Tuple, ast.Compare)):
+            return [a.value.id]
+        if isinstance(a, ast.Name):
+            v = vm.get(a.id)
+            if v is None:
+                return [a.id]
+            return sorted(v) if isinstance(v, (set, frozenset)) else [v]
+        raise Unsupported("argument of a mutating callee must be a row `A[i]`, a row view or an array name")
+
+    def mutcall_arrays(self, node, cand=None):
+        out = []
+        for _, margs in self.mutating_calls(node):
+            for a, _ in margs:
+                out += self.mutarg_array(a, cand)
+        return out
 
     def no_pre(self):
         if self.pre:
@@ -330,6 +416,10 @@ class FnTranslator:
             raise Unsupported("constant %r" % (v,))
         if isinstance(n, ast.Name):
             if n.id in env:
+                if isinstance(env[n.id], RowView):
+                    # a row view read as a value: the CURRENT contents of that row
+                    rv = env[n.id]
+                    return "(%s %s %s)" % ("mrow N" if rv.rowt == V else "imrow", self.var(rv.arr), self.var(n.id)), rv.rowt
                 return self.var(n.id), env[n.id]
             if n.id in self.consts:
                 return self.const(n.id)
@@ -526,6 +616,11 @@ class FnTranslator:
             if isinstance(n.slice, ast.Constant) and n.slice.value == 1 and t == MZ:
                 return "(zlen (imrow %s 0))" % arr, I
             raise Unsupported("shape index")
+        if isinstance(n.value, ast.Name) and isinstance(env.get(n.value.id), RowView) and not isinstance(n.slice, (ast.Slice, ast.Tuple, ast.Compare)):
+            rv = env[n.value.id]
+            if rv.rowt == V:
+                return "(mnth N %s %s %s)" % (self.var(rv.arr), self.var(n.value.id), self.index(n.slice, env)), F
+            return "(imnth %s %s %s)" % (self.var(rv.arr), self.var(n.value.id), self.index(n.slice, env)), I
         arr, t = self.expr(n.value, env)
         sl = n.slice
         if isinstance(t, tuple) and not (t and t[0] == "opt"):
@@ -782,11 +877,13 @@ class FnTranslator:
             info = self.module_fns[name]
             if kw:
                 raise Unsupported("keyword call of " + name)
-            if info.get("mutates"):
-                raise Unsupported("call of %s, which mutates its argument" % name)
             dfl = info.get("defaults", {})
             if len(n.args) > len(info["args"]) or any(an not in dfl for an, _ in info["args"][len(n.args):]):
                 raise Unsupported("call of %s with defaults" % name)
+            if info.get("mutates"):
+                if len(n.args) != len(info["args"]):
+                    raise Unsupported("call of the mutating function %s with defaults" % name)
+                return self.mutating_call(n, name, info, env)
             args = []
             for a, (an, at) in zip(n.args, info["args"]):
                 e, t = self.expr(a, env)
@@ -819,6 +916,37 @@ class FnTranslator:
             return "(%s %s)" % (head, " ".join(args)), info["ret"]
         raise Unsupported("call of " + name)
 
+    def mutating_call(self, n, name, info, env):
+        """call of a translated function that stores into its argument array(s) and returns a value: the generated callee
+        returns (value, final arrays); the call is hoisted in front of the statement and every final array is written back
+        into the caller's array (`A[i]` / a row view: row i of A is replaced; an array name: rebound)"""
+        if not self.mut_ok or self.cond_depth:
+            raise Unsupported("call of %s (which mutates its argument) outside `name = <expression>` or inside a conditional expression" % name)
+        if info.get("fuel") or info["ext"] or info.get("pinf") or info.get("opaque") or not info.get("valret"):
+            raise Unsupported("call of the mutating function %s: only value-returning, fuel-free callees" % name)
+        args, back = [], []
+        for a, (an_, at) in zip(n.args, info["args"]):
+            e, t = self.expr(a, env)
+            args.append(self.coerce(e, t, at))
+            if an_ in info["mutates"]:
+                m = "m%d_" % self.fresh
+                self.fresh += 1
+                if isinstance(a, ast.Subscript) and isinstance(a.value, ast.Name) and env.get(a.value.id) in (M, MZ) and a.value.id in self.mutated:
+                    back.append((m, "let %s := (zset %s %s %s) in\n" % (self.var(a.value.id), self.var(a.value.id), self.index(a.slice, env), m)))
+                elif isinstance(a, ast.Name) and isinstance(env.get(a.id), RowView):
+                    rv = env[a.id]
+                    back.append((m, "let %s := (zset %s %s %s) in\n" % (self.var(rv.arr), self.var(rv.arr), self.var(a.id), m)))
+                elif isinstance(a, ast.Name) and env.get(a.id) in ARRAYS and a.id in self.mutated:
+                    back.append((m, "let %s := %s in\n" % (self.var(a.id), m)))
+                else:
+                    raise Unsupported("argument of the mutating callee %s is not a row / row view / array argument of this function" % name)
+        r = "r%d_" % self.fresh
+        self.fresh += 1
+        self.calls.add(name)
+        txt = "let '(%s) := src_%s N %s in\n" % (", ".join([r] + [m for m, _ in back]), name, " ".join(args)) + "".join(b for _, b in back)
+        self.pre.append((txt, None))
+        return r, info["ret"][0]
+
     # ---------------------------------------------------------------- statements
     def var(self, name):
         return name if name not in COQ_RESERVED else name + "_"
@@ -843,6 +971,7 @@ class FnTranslator:
         if self.mutated:
             e = "(" + ", ".join([e] + [self.var(m) for m in self.mutated]) + ")"
             t = (t,) + tuple(env[m] for m in self.mutated)
+            self.valret = True
         self.note_ret(t)
         if self.has_fuel:
             return "(%s, %s)" % (e, self.ok_conj(env))
@@ -935,8 +1064,34 @@ class FnTranslator:
         return "let %s := %s in\n" % (self.var(name), e), env2
 
     def assign(self, target, value, rest, env, k):
+        if isinstance(target, ast.Name) and target.id in self.viewmap:
+            # `v = A[i]`, A a 2-d argument array this function mutates: v is a VIEW of row i (index evaluated now)
+            arr = self.viewmap[target.id]
+            if not (isinstance(value, ast.Subscript) and isinstance(value.value, ast.Name) and value.value.id == arr and env.get(arr) in (M, MZ)):
+                raise Unsupported("row view %s bound to something else than a row of %s" % (target.id, arr))
+            rv = RowView(arr, V if env[arr] == M else VZ)
+            if target.id in env and env[target.id] != rv:
+                raise Unsupported("variable %s changes type" % target.id)
+            i = self.index(value.slice, env)
+            self.no_pre()
+            env2 = dict(env)
+            env2[target.id] = rv
+            return "let %s := %s in\n" % (self.var(target.id), i) + self.block(rest, env2, k)
         if isinstance(target, ast.Name):
-            e, t = self.expr(value, env)
+            mc = self.mutating_calls(value)
+            if mc:
+                # the hoisted call is evaluated before the rest of the statement: nothing else in it may read the arrays it writes
+                for arrn in self.mutcall_arrays(value):
+                    related = {arrn} | {v for v, a_ in self.viewmap.items() if a_ == arrn}
+                    if sum(1 for x in ast.walk(value) if isinstance(x, ast.Name) and x.id in related) != 1:
+                        raise Unsupported("statement reads %s besides passing it to a mutating callee" % arrn)
+                if len(mc) != 1:
+                    raise Unsupported("several mutating calls in one statement")
+            self.mut_ok = bool(mc)
+            try:
+                e, t = self.expr(value, env)
+            finally:
+                self.mut_ok = False
             pre, env = self.take_pre(env)
             if isinstance(t, tuple):
                 raise Unsupported("tuple value bound to a name")
@@ -987,6 +1142,16 @@ class FnTranslator:
                 e = "(repeat %s (length %s))" % (self.coerce(e, t, F), self.var(arr))
             self.no_pre()
             return "let %s := (vselect N %s %s %s) in\n" % (self.var(arr), m, e, self.var(arr)) + self.block(rest, env, k)
+        if isinstance(target, ast.Subscript) and isinstance(target.value, ast.Name) and isinstance(env.get(target.value.id), RowView):
+            # `v[d] = e` through a row view: a store into A[i, d] of the array in the state
+            rv = env[target.value.id]
+            if rv.rowt != V or isinstance(target.slice, (ast.Slice, ast.Tuple, ast.Compare)):
+                raise Unsupported("store through a row view of an int matrix / non-scalar index")
+            e, t = self.expr(value, env)
+            d = self.index(target.slice, env)
+            self.no_pre()
+            new = "(mset N %s %s %s %s)" % (self.var(rv.arr), self.var(target.value.id), d, self.coerce(e, t, F))
+            return "let %s := %s in\n" % (self.var(rv.arr), new) + self.block(rest, env, k)
         if isinstance(target, ast.Subscript) and isinstance(target.value, ast.Name):
             arr = target.value.id
             if arr not in env:
@@ -1029,7 +1194,7 @@ class FnTranslator:
     def state_vars(self, body, env, rest_used=None):
         """variables the loop/if body assigns that exist before it (they form the state); names first bound inside
         must not be read afterwards"""
-        names = assigned_names(body)
+        names = self.an(body)
         return [n for n in names if n in env], [n for n in names if n not in env]
 
     def read_before_bound(self, stmts, name):
@@ -1106,18 +1271,23 @@ class FnTranslator:
             b = self.block(s.orelse + rest, env, k)
             return pre + "(if %s then\n%s\nelse\n%s)" % (c, a, b)
         # join point: variables assigned in either branch.  A name first bound in both branches is fine.
-        an, bn = assigned_names(s.body), assigned_names(s.orelse)
+        an, bn = self.an(s.body), self.an(s.orelse)
         names = [n for n in an + [x for x in bn if x not in an]]
         outs = [n for n in names if n in env or (n in an and n in bn)]
         types = {}
+        want = {}       # variable -> F when it is an int on one path and a float on the other (Python: the int is converted
+                        # where it meets a float; of_Z is exact for the small literals this is meant for)
 
         def branch(stmts):
             def fin(e2):
                 for n in outs:
                     if n not in e2:
                         raise Unsupported("variable %s not bound on a path" % n)
-                    types.setdefault(n, []).append(e2[n])
-                return self.tup(outs)
+                    types.setdefault(n, []).append(want.get(n, e2[n]))
+                if len(outs) == 1:
+                    n = outs[0]
+                    return self.coerce(self.var(n), e2[n], want[n]) if n in want else self.var(n)
+                return "(" + ", ".join(self.coerce(self.var(n), e2[n], want[n]) if n in want else self.var(n) for n in outs) + ")" if outs else "tt"
             self.nest += 1
             try:
                 return self.block(stmts, env, fin)
@@ -1126,6 +1296,13 @@ class FnTranslator:
 
         a = branch(s.body)
         b = branch(s.orelse)
+        mixed = [n for n in outs if set(types[n]) == {F, I} and n not in env]
+        if mixed:
+            for n in mixed:
+                want[n] = F
+            types.clear()
+            a = branch(s.body)
+            b = branch(s.orelse)
         env2 = dict(env)
         for n in outs:
             ts = set(types[n])
@@ -1353,12 +1530,75 @@ class FnTranslator:
                 raise Unsupported("default value of %s is not a float / int / bool literal" % arg.arg)
         return "".join(out)
 
+    def alias_args(self, fn, alias):
+        """copy of fn for calls in which the argument `b` IS the same array as the argument `a` (alias = {b: a}): every
+        occurrence of the name b is replaced by a and the parameter b disappears"""
+        import copy
+        fn = copy.deepcopy(fn)
+        names = [a.arg for a in fn.args.args]
+        for b_, a_ in alias.items():
+            if b_ not in names or a_ not in names or a_ in alias or b_ == a_:
+                raise Unsupported("alias %s -> %s: not two distinct arguments" % (b_, a_))
+        for x in ast.walk(fn):
+            if isinstance(x, ast.Name) and x.id in alias:
+                if not isinstance(x.ctx, ast.Load):
+                    raise Unsupported("aliased argument %s is rebound" % x.id)
+                x.id = alias[x.id]
+        fn.args.args = [a for a in fn.args.args if a.arg not in alias]
+        return fn
+
+    def find_views(self, fn, params):
+        """static pre-pass -> (viewmap, mutated): the argument arrays the body stores into (directly, through a row view, or
+        by passing a row / view / the array to a mutating callee) and the names that are row views of mutated 2-d arguments"""
+        ptypes = dict(params)
+        cand = {}
+        for x in ast.walk(fn):
+            if isinstance(x, ast.Assign) and len(x.targets) == 1 and isinstance(x.targets[0], ast.Name):
+                v = x.value
+                if isinstance(v, ast.Subscript) and isinstance(v.value, ast.Name) and ptypes.get(v.value.id) in (M, MZ) \
+                        and not isinstance(v.slice, (ast.Slice, ast.Tuple, ast.Compare)) and x.targets[0].id not in ptypes:
+                    cand.setdefault(x.targets[0].id, set()).add(v.value.id)
+        stores = set()
+        for x in ast.walk(fn):
+            if isinstance(x, (ast.Assign, ast.AugAssign)):
+                for t in (x.targets if isinstance(x, ast.Assign) else [x.target]):
+                    if isinstance(t, ast.Subscript) and isinstance(t.value, ast.Name):
+                        stores |= cand.get(t.value.id, {t.value.id})
+        stores |= set(self.mutcall_arrays(fn, cand))
+        mutated = [n for n, _ in params if n in stores]
+        viewmap = {}
+        for v, arrs in cand.items():
+            if arrs & set(mutated):
+                if len(arrs) != 1:
+                    raise Unsupported("name %s is bound to rows of different arrays, one of them mutated" % v)
+                viewmap[v] = next(iter(arrs))
+        # a view name may only ever be bound by `v = A[i]` (the same A)
+        for x in ast.walk(fn):
+            tg = []
+            if isinstance(x, ast.Assign):
+                tg = [(t, x.value) for t in x.targets]
+            elif isinstance(x, ast.AugAssign):
+                tg = [(x.target, None)]
+            elif isinstance(x, ast.For):
+                tg = [(x.target, None)]
+            for t, val in tg:
+                for nm in ([t] if isinstance(t, ast.Name) else list(t.elts) if isinstance(t, (ast.Tuple, ast.List)) else []):
+                    if isinstance(nm, ast.Name) and nm.id in viewmap:
+                        ok = isinstance(t, ast.Name) and isinstance(val, ast.Subscript) and isinstance(val.value, ast.Name) and \
+                            val.value.id == viewmap[nm.id] and not isinstance(val.slice, (ast.Slice, ast.Tuple, ast.Compare))
+                        if not ok:
+                            raise Unsupported("row view %s is also bound to something that is not a row of %s" % (nm.id, viewmap[nm.id]))
+        return viewmap, mutated
+
     def translate(self):
         fixed = self.sig.get("fixed") or {}
         defaults_txt = self.default_defs(self.fn, fixed) if self.sig.get("defaults") else ""
         if fixed:
             self.fn = self.specialise(self.fn, fixed)
             self.has_raise = contains(self.fn.body, ast.Raise)
+        alias = self.sig.get("alias") or {}
+        if alias:
+            self.fn = self.alias_args(self.fn, alias)
         fn = self.fn
         a = fn.args
         if a.vararg or a.kwarg or a.kwonlyargs or a.posonlyargs:
@@ -1381,16 +1621,8 @@ class FnTranslator:
                     self.defaults[arg.arg] = (flit(dv.value), F)
         self.ret_type = None
         # argument arrays the body stores into are part of the result (Python mutates the caller's array)
-        stores = set()
-        for x in ast.walk(fn):
-            if isinstance(x, (ast.Assign, ast.AugAssign)):
-                for t in (x.targets if isinstance(x, ast.Assign) else [x.target]):
-                    if isinstance(t, ast.Subscript) and isinstance(t.value, ast.Name):
-                        stores.add(t.value.id)
-            elif isinstance(x, ast.Assign):
-                pass
+        self.viewmap, self.mutated = self.find_views(fn, params)
         rebound = {t.id for x in ast.walk(fn) if isinstance(x, ast.Assign) for t in x.targets if isinstance(t, ast.Name)}
-        self.mutated = [n for n, _ in params if n in stores]
         if set(self.mutated) & rebound:
             raise Unsupported("argument array both mutated and rebound")
         # numba explicit signature "i4(...)": the int result is wrapped to int32
@@ -1420,12 +1652,13 @@ class FnTranslator:
         if self.uses_pinf and (any(n == "pinf" for n, _ in params) or any(h == "pinf" for h, _ in opq)):
             raise Unsupported("an argument is called pinf")
         head = "Definition src_%s (N : Num)%s%s%s %s : %s :=\n" % (
-            fn.name, " (E : PyExt N)" if self.uses_ext else "", " (pinf : N)" if self.uses_pinf else "",
+            self.sig.get("outname") or fn.name, " (E : PyExt N)" if self.uses_ext else "", " (pinf : N)" if self.uses_pinf else "",
             "".join(" (%s : %s)" % (self.var(h), " -> ".join(coq_type(t) for t in tys + [r])) for h, (tys, r) in opq),
             " ".join("(%s : %s)" % (self.var(n), coq_type(t)) for n, t in params), coq_type(full))
         return head + body + ".\n" + defaults_txt, {"args": params, "ret": rt, "ext": self.uses_ext, "mutates": self.mutated,
                                       "fuel": self.has_fuel, "opaque": opq, "pinf": self.uses_pinf, "fixed": dict(fixed),
-                                      "defaults": {n: self.defaults[n] for n, _ in params if n in self.defaults}}
+                                      "defaults": {n: self.defaults[n] for n, _ in params if n in self.defaults},
+                                      "valret": getattr(self, "valret", False), "alias": dict(alias), "views": dict(self.viewmap)}
 
 
 COQ_RESERVED = {"at", "as", "in", "fun", "let", "match", "end", "with", "then", "else", "if", "return", "forall", "exists", "fix", "cofix",
@@ -1511,6 +1744,7 @@ def translate_module(path, wanted, sigs=None, consts=None, modname="Src", const_
     every read of it in a function is that definition; a constant bound to +infinity becomes the argument `pinf`."""
     sigs = sigs or {}
     fns, tree_ = module_functions(path)
+    fns = dict(fns)
     done, report, chunks = {}, {}, []
     ifns, ierrs = imported_functions(path, tree_, imports)
     origin = {}
@@ -1529,15 +1763,20 @@ def translate_module(path, wanted, sigs=None, consts=None, modname="Src", const_
                 chunks.append("Definition src_const_%s : Z := %s.\n" % (nm, txt))
                 consts[nm] = ("src_const_%s" % nm, I)
     for name in wanted:
-        if name in ierrs:
-            report[name] = {"ok": False, "error": ierrs[name]}
+        # `sigs[name]["source"]`: `name` is a VARIANT (other alias / fixed options) of the source function of that name; the
+        # generated definition is src_<name>
+        sig = dict(sigs.get(name, {}))
+        srcname = sig.get("source", name)
+        if srcname in ierrs:
+            report[name] = {"ok": False, "error": ierrs[srcname]}
             continue
-        if name not in fns:
+        if srcname not in fns:
             report[name] = {"ok": False, "error": "function not found in " + path}
             continue
-        fn = fns[name]
+        fn = fns[srcname]
+        sig["outname"] = name
         try:
-            tr = FnTranslator(fn, sigs.get(name, {}), done, consts or {})
+            tr = FnTranslator(fn, sig, done, consts or {})
             text, info = tr.translate()
         except Unsupported as e:
             report[name] = {"ok": False, "error": "unsupported: %s (line %d)" % (e, fn.lineno)}
@@ -1551,14 +1790,19 @@ def translate_module(path, wanted, sigs=None, consts=None, modname="Src", const_
                         "lines": (fn.lineno, fn.end_lineno), "ext": info["ext"], "ret": str(info["ret"]),
                         "args": [(n, str(t)) for n, t in info["args"]], "fuel_flags": getattr(tr, "fuel_flags", []),
                         "fuel_bounded": info["fuel"], "opaque": [h for h, _ in info["opaque"]],
-                        "pinf": info["pinf"], "fixed": info["fixed"]}
+                        "pinf": info["pinf"], "fixed": info["fixed"], "alias": info["alias"], "views": info["views"]}
         for an, (dtxt, dty) in info.get("defaults", {}).items():
             if dty == F:
                 chunks.append("Definition src_default_%s_%s (N : Num) : N := %s.\n" % (name, an, dtxt))
             else:
                 chunks.append("Definition src_default_%s_%s : Z := %s.\n" % (name, an, dtxt))
         spec = ("  specialised to " + ", ".join("%s=%s" % kv for kv in sorted(info["fixed"].items()))) if info["fixed"] else ""
-        chunks.append("(* %s:%d-%d  %s%s *)\n%s" % (origin.get(name, path).split("/")[-1], fn.lineno, fn.end_lineno, " ".join(decorator_flags(fn)), spec, text))
+        if info["alias"]:
+            spec += "  for calls where " + ", ".join("%s is %s" % kv for kv in sorted(info["alias"].items()))
+        elif info["views"] and len(set(info["views"].values())) > 1:
+            spec += "  for calls where the arrays %s do not overlap" % ", ".join(sorted(set(info["views"].values())))
+        org = path.split("/")[-1] if srcname not in origin else "%s (imported by %s)" % (origin[srcname].split("/")[-1], path.split("/")[-1])
+        chunks.append("(* %s:%d-%d  %s%s *)\n%s" % (org, fn.lineno, fn.end_lineno, " ".join(decorator_flags(fn)), spec, text))
     header = ("(* GENERATED by harness/vp/py2coq.py from %s -- do not edit *)\n"
               "From Coq Require Import List ZArith Bool.\nFrom UV Require Import Num PyPrim.\nImport ListNotations.\n\n" % path)
     return header + "\n".join(chunks), report
